@@ -6,6 +6,7 @@
 package main
 
 import (
+	"bytes"
 	"fmt"
 	"go/ast"
 	"go/parser"
@@ -166,7 +167,67 @@ func fastSetup(root, mod, baseDir string) {
 	fastBase, fastBaseErr = moq.New(moq.Config{SrcDir: baseDir})
 }
 
+// fastFixedPoint is the library half of C15's first clause on every in-place job: the output,
+// added to the source package as one more file (parsed and type-checked together with it, exactly
+// what a second run of the same command loads), must reproduce itself byte for byte.
+func fastFixedPoint(job JobCfg, res *Result) {
+	defer func() {
+		if r := recover(); r != nil {
+			res.Checks["oracle-panic"] = fmt.Sprintf("fixed point: %v", r)
+		}
+	}()
+	def, ok := res.Runs[""]
+	if !ok || def.Err != "" || def.Panic != "" {
+		return
+	}
+	si := fastLoadPath(fastPathOf(job.Dir))
+	if si.err != nil || !inPlaceIntended(job, si.pkgName) {
+		return
+	}
+	f, err := parser.ParseFile(sharedFset, filepath.Join(fastDirOf(si.pkgPath), "zz_verif_moq.go"), def.Out, parser.AllErrors|parser.ParseComments)
+	if err != nil {
+		return // not Go: C01's business
+	}
+	files := append(append([]*ast.File{}, si.files...), f)
+	var first error
+	conf := types.Config{Importer: si.imp, Error: func(e error) {
+		if first == nil {
+			first = e
+		}
+	}}
+	pkg2, _ := conf.Check(si.pkgPath, sharedFset, files, nil)
+	if first != nil || pkg2 == nil {
+		return // does not compile in place: C01's business
+	}
+	cfg := moq.Config{SrcDir: job.Dir, PkgName: job.PkgName, StubImpl: job.StubImpl, SkipEnsure: job.SkipEnsure, WithResets: job.WithResets}
+	m, err := moq.VerifMocker(fastBase, cfg, si.pkgName, pkg2, files, fastFindPkgPath(job.PkgName, si.pkgPath))
+	if err != nil {
+		return
+	}
+	var buf bytes.Buffer
+	if err := m.Mock(&buf, job.Args...); err != nil {
+		res.Checks["C15"] = "regeneration with moq's own output in the package fails: " + err.Error()
+		return
+	}
+	if out2 := buf.String(); out2 != def.Out {
+		a, b := strings.Split(def.Out, "\n"), strings.Split(out2, "\n")
+		i := 0
+		for i < len(a) && i < len(b) && a[i] == b[i] {
+			i++
+		}
+		la, lb := "", ""
+		if i < len(a) {
+			la = a[i]
+		}
+		if i < len(b) {
+			lb = b[i]
+		}
+		res.Checks["C15"] = fmt.Sprintf("moq's own output left in the package does not reproduce itself: line %d is %q, was %q", i+1, lb, la)
+	}
+}
+
 func init() {
+	fastFixedPointFn = fastFixedPoint
 	fastSetupFn = fastSetup
 	fastLoadDirFn = func(dir string) *srcInfo { return fastLoadPath(fastPathOf(dir)) }
 	fastLoadSrcFn = func(dir string) (*packages.Package, error) {
